@@ -1059,7 +1059,7 @@ class TypeEngine(Visitable, Generic[_T]):
         self,
     ) -> Union[CacheConst, Tuple[Any, ...]]:
         names = util.get_cls_kwargs(self.__class__)
-        return (self.__class__,) + tuple(
+        key = (self.__class__,) + tuple(
             (
                 k,
                 (
@@ -1073,6 +1073,19 @@ class TypeEngine(Visitable, Generic[_T]):
             and not k.startswith("_")
             and self.__dict__[k] is not None
         )
+        if self._variant_mapping:
+            # types established with with_variant() render and process
+            # values per dialect
+            variant_keys = []
+            for dialect_name in sorted(self._variant_mapping):
+                variant_key = self._variant_mapping[
+                    dialect_name
+                ]._static_cache_key
+                if variant_key is NO_CACHE:
+                    return NO_CACHE
+                variant_keys.append((dialect_name, variant_key))
+            key += (("_variant_mapping", tuple(variant_keys)),)
+        return key
 
     @overload
     def adapt(self, cls: Type[_TE], **kw: Any) -> _TE: ...
